@@ -327,7 +327,7 @@ def main_check(mod, tier: str, seed: int, replay: str | None = None) -> int:
     write_json(os.path.join(VERIF, "evidence", pid + ".json"), ev)
 
     # ---- report --------------------------------------------------------------------------------
-    print(f"[{pid}] evaluations={evals} cases={total} distinct_nontrivial={len(nontriv)} "
+    print(f"[{pid}] evaluations={cov['evaluations']} cases={total} distinct_nontrivial={cov['distinct_nontrivial']} "
           f"distinct_outcomes={len(outcomes)} wall={ev['wall_s']}s", flush=True)
     if mod.LEVEL == "model_checking":
         print(f"[{pid}] states={cov['states']} transitions={cov['transitions']} "
